@@ -252,6 +252,7 @@ PROPS["C19"] = {
 
 PROPS["C12"] = {
     "level": "fault_enumeration",
+    "extra_units_note": "TestC12RealSocketClose runs against the real AF_PACKET adapter (no virtual wire) in a child process inside a network namespace",
     "exhaustive_when_all": False,
     "assumptions": ["cancel points: synchronous cancellation of the parent context inside the k-th probe start / record write / error log (application engine), and the real SIGINT sent from inside the k-th frame write for every k of a run (packet commands)",
                     "'bounded time' = 30 s (expected: milliseconds); a miss is reported with a goroutine dump",
@@ -264,6 +265,9 @@ PROPS["C12"] = {
                   T("TestC12Socks", {"checks": 4, "shards": 4}, {"checks": 30, "shards": 8})] + [
                   {"name": "TestC12BigSpace", "variant": "big%d" % i, "quick": {"checks": 1, "env": {"C12_BIG": i}}, "thorough": {"checks": 1, "env": {"C12_BIG": i}}}
                   for i in range(4)],
+    }, {
+        "pkg": "pkg/packet/afpacket", "real_adapter": True,
+        "tests": [T("TestC12RealSocketClose", {"checks": 12, "shards": 4}, {"checks": 120, "shards": 8})],
     }],
 }
 
